@@ -11,7 +11,7 @@ use std::hash::{Hash, Hasher};
 use varpulis_core::Value;
 
 fn atoms() -> Vec<Value> {
-    vec![Value::Null, Value::Bool(true), Value::Int(0), Value::Int(1), Value::Float(0.0), Value::Float(-0.0), Value::Float(f64::NAN), Value::Float(1.0), Value::Str("".into()), Value::Str("a".into()), Value::Timestamp(0), Value::Duration(0)]
+    vec![Value::Null, Value::Bool(true), Value::Int(0), Value::Int(1), Value::Float(0.0), Value::Float(-0.0), Value::Float(f64::NAN), Value::Float(f64::from_bits(0xfff8_0000_0000_0001)), Value::Float(1.0), Value::Str("".into()), Value::Str("a".into()), Value::Timestamp(0), Value::Duration(0)]
 }
 
 fn map_of(entries: &[(&str, &Value)]) -> Value {
@@ -60,7 +60,7 @@ fn values(thorough: bool) -> Vec<Value> {
             }
         }
         // depth 3: containers of depth-2 containers over a reduced atom set
-        let red = [Value::Int(1), Value::Float(0.0), Value::Float(-0.0), Value::Float(f64::NAN)];
+        let red = [Value::Int(1), Value::Float(0.0), Value::Float(-0.0), Value::Float(f64::NAN), Value::Float(f64::from_bits(0xfff8_0000_0000_0001))];
         let mut inner = Vec::new();
         for x in &red {
             for y in &red {
@@ -223,7 +223,7 @@ fn self_test() {
     assert_eq!(shape(&m1, &m1), "same_map");
     assert_eq!(shape(&one, &Value::Float(1.0)), "int_vs_float");
     assert_eq!(nodes(&Value::array(vec![m1.clone(), one.clone()])), 5);
-    assert_eq!(values(false).len(), 12 + 2 + 3 * 12 + 3 * 144);
+    assert_eq!(values(false).len(), 13 + 2 + 3 * 13 + 3 * 169);
     let back = dec_opt(&enc(&m2)).unwrap();
     if let (Value::Map(x), Value::Map(y)) = (&back, &m2) {
         assert!(x.keys().zip(y.keys()).all(|(k, l)| k == l), "replay encoding keeps the insertion order");
